@@ -305,6 +305,7 @@ fn container_prop<K: Kmer + 'static>(name: &'static str, _env: &Env) -> Vec<Box<
     .boxed()]
 }
 
+#[cfg(not(fuzzing))]
 pub fn jobs(env: &Env) -> Vec<Box<dyn Job>> {
     let mut out: Vec<Box<dyn Job>> = vec![exts_job()];
     crate::kmers_list!(exhaustive_kmer, out, env; Kmer8, Kmer6, Kmer5, Kmer4, Kmer4v, Kmer3, Kmer2);
